@@ -243,6 +243,9 @@ func ZZHarnessConsensus() {
 		return
 	}
 	zzReach("accepted")
+	if zzParam("RULES") == 0 {
+		return // C08 run: only panic-freedom is the subject; the gossip rules are asserted under C09
+	}
 	t := uint64(msg.Message.MsgType)
 	h := uint64(msg.Message.Height)
 	r := uint64(msg.Message.Round)
@@ -418,6 +421,9 @@ func ZZHarnessPartial() {
 		return
 	}
 	zzReach("accepted")
+	if zzParam("RULES") == 0 {
+		return
+	}
 	pt := msg.Message.Type
 	okType := false
 	switch role {
